@@ -23,6 +23,7 @@ verus! {
 //@type Token in core/src/parsing/text_query.rs
 //@type TokenIterator in core/src/parsing/text_query.rs
 //@include stream.rs
+//@include tokstream.rs
 //@part lexer
 //@autoslots
 } // verus!
